@@ -252,6 +252,80 @@ def t_docstrings_and_hints(text, rel):
     return ast.unparse(ast.fix_missing_locations(tree)) + "\n"
 
 
+def t_debug_logging(text, rel):
+    """modules that define `logger`: a logger.debug(...) call at the top of every function"""
+    tree = ast.parse(text)
+    if not any(isinstance(st, ast.Assign) and any(isinstance(t, ast.Name) and t.id == "logger" for t in st.targets) for st in tree.body):
+        return text
+    for n in ast.walk(tree):
+        if isinstance(n, ast.FunctionDef):
+            pos = 1 if (n.body and isinstance(n.body[0], ast.Expr) and isinstance(n.body[0].value, ast.Constant) and isinstance(n.body[0].value.value, str)) else 0
+            if any(isinstance(x, (ast.Yield, ast.YieldFrom)) for x in ast.walk(n)):
+                continue
+            call = ast.Expr(ast.Call(ast.Attribute(ast.Name("logger", ast.Load()), "debug", ast.Load()), [ast.Constant(f"entering {n.name}")], []))
+            n.body.insert(pos, call)
+    return ast.unparse(ast.fix_missing_locations(tree)) + "\n"
+
+
+def t_inner_function(text, rel):
+    """`return <expr>` as the last statement -> `def _compute(): return <expr>` + `return _compute()` (closure over the locals)"""
+    tree = ast.parse(text)
+    for n in ast.walk(tree):
+        if isinstance(n, ast.FunctionDef) and n.body and isinstance(n.body[-1], ast.Return) and n.body[-1].value is not None:
+            if any(isinstance(x, (ast.Yield, ast.YieldFrom, ast.Await)) for x in ast.walk(n)):
+                continue
+            if any(isinstance(x, ast.Name) and x.id in ("super", "locals", "vars", "__class__") for x in ast.walk(n)):
+                continue
+            ret = n.body[-1]
+            if isinstance(ret.value, (ast.Name, ast.Constant)):
+                continue
+            if any(isinstance(x, ast.NamedExpr) for x in ast.walk(ret.value)):
+                continue
+            inner = ast.FunctionDef(name="_compute", args=ast.arguments(posonlyargs=[], args=[], kwonlyargs=[], kw_defaults=[], defaults=[]),
+                                    body=[ast.Return(ret.value)], decorator_list=[], type_params=[])
+            n.body[-1:] = [inner, ast.Return(ast.Call(ast.Name("_compute", ast.Load()), [], []))]
+    return ast.unparse(ast.fix_missing_locations(tree)) + "\n"
+
+
+def t_tuple_list_iter(text, rel):
+    """`for x in (a, b, c)` <-> `for x in [a, b, c]` (loops and comprehensions)"""
+    tree = ast.parse(text)
+    for n in ast.walk(tree):
+        if isinstance(n, (ast.For, ast.comprehension)):
+            if isinstance(n.iter, ast.Tuple):
+                n.iter = ast.List(n.iter.elts, ast.Load())
+            elif isinstance(n.iter, ast.List):
+                n.iter = ast.Tuple(n.iter.elts, ast.Load())
+    return ast.unparse(ast.fix_missing_locations(tree)) + "\n"
+
+
+def t_de_morgan(text, rel):
+    """`if a and b:` -> `if not (not a or not b):` (and the dual) in if/while tests"""
+    tree = ast.parse(text)
+    for n in ast.walk(tree):
+        if isinstance(n, (ast.If, ast.While)) and isinstance(n.test, ast.BoolOp):
+            t = n.test
+            dual = ast.Or() if isinstance(t.op, ast.And) else ast.And()
+            n.test = ast.UnaryOp(ast.Not(), ast.BoolOp(dual, [ast.UnaryOp(ast.Not(), v) for v in t.values]))
+    return ast.unparse(ast.fix_missing_locations(tree)) + "\n"
+
+
+def t_constant_indirection(text, rel):
+    """module-level `NAME = <constant/str/regex literal>` -> `_NAME_VALUE = ...; NAME = _NAME_VALUE`"""
+    tree = ast.parse(text)
+    new_body = []
+    for st in tree.body:
+        if isinstance(st, ast.Assign) and len(st.targets) == 1 and isinstance(st.targets[0], ast.Name) and st.targets[0].id.isupper() \
+                and isinstance(st.value, (ast.Constant, ast.Dict, ast.Tuple, ast.List)):
+            tmp = f"_{st.targets[0].id}_VALUE"
+            new_body.append(ast.Assign([ast.Name(tmp, ast.Store())], st.value))
+            new_body.append(ast.Assign([ast.Name(st.targets[0].id, ast.Store())], ast.Name(tmp, ast.Load())))
+        else:
+            new_body.append(st)
+    tree.body = new_body
+    return ast.unparse(ast.fix_missing_locations(tree)) + "\n"
+
+
 TRANSFORMS = {
     "unparse": t_unparse,
     "rename_locals": t_rename_locals,
@@ -262,6 +336,11 @@ TRANSFORMS = {
     "split_chain": t_kw_to_pos_self,
     "fstring_format": t_fstring_to_format,
     "docstrings_hints": t_docstrings_and_hints,
+    "debug_logging": t_debug_logging,
+    "inner_function": t_inner_function,
+    "tuple_list_iter": t_tuple_list_iter,
+    "de_morgan": t_de_morgan,
+    "constant_indirection": t_constant_indirection,
 }
 
 
